@@ -78,6 +78,8 @@ type Sim struct {
 	fails    []failure
 
 	timerBud, failBud int32
+	forks             int
+	sawKeyLock        bool
 	active            int32
 }
 
@@ -198,6 +200,11 @@ func (s *Sim) record(gid int64, point string, args []interface{}) {
 		e.a, e.f1 = s.id(args[0]), args[1].(bool)
 	case "reactive.cache.get":
 		e.a, e.b, e.c = s.cachePtr[ptrOf(args[0])], keyInt(args[1]), s.id(args[2])
+		if !HooksKeyLock {
+			// no observation point at cache.locker.Lock in this tree: the lock was taken (uncontended: compute
+			// functions are sequential then) some time before this cache.get
+			s.events = append(s.events, ev{gid: gid, kind: "keylock", a: e.a, b: e.b})
+		}
 	case "reactive.cache.set":
 		e.a, e.b, e.c, e.f1 = s.cachePtr[ptrOf(args[0])], keyInt(args[1]), s.id(args[2]), args[3].(bool)
 	case "reactive.cache.clean":
@@ -209,6 +216,11 @@ func (s *Sim) record(gid int64, point string, args []interface{}) {
 		}
 	case "reactive.cache.lockerr":
 		e.a = s.cachePtr[ptrOf(args[0])]
+	case "reactive.cache.locked":
+		e.kind, e.a, e.b = "keylock", s.cachePtr[ptrOf(args[0])], keyInt(args[1])
+		s.sawKeyLock = true
+	case "reactive.cache.unlock":
+		e.kind, e.a, e.b = "keyunlock", s.cachePtr[ptrOf(args[0])], keyInt(args[1])
 	case "reactive.Resource.Invalidate":
 		if s.harnessRes[ptrOf(args[0])] {
 			return
@@ -391,11 +403,52 @@ func (s *Sim) exec(ctx context.Context, ri int, prog []Op, depth int, nth int) (
 			if err != nil {
 				return nil, err
 			}
+			if !HooksKeyLock {
+				s.own(ev{kind: "keyunlock", a: ri, b: o.Key}, "keyunlock")
+			}
 			for _, p := range v.([]pair) {
 				if p.Depth <= depth {
 					p.Depth = depth + 1
 				}
 				out = append(out, p)
+			}
+		case "par":
+			// goroutines inside the compute function, all on the same ctx / computation; the function waits for
+			// them and returns an error if one of them did
+			s.mu.Lock()
+			jid := s.forks
+			s.forks++
+			s.events = append(s.events, ev{gid: curGid(), kind: "fork", a: jid, b: len(o.Branches)})
+			s.pass("fork")
+			s.mu.Unlock()
+			outs := make([][]pair, len(o.Branches))
+			errs := make([]error, len(o.Branches))
+			var wg sync.WaitGroup
+			for bi := range o.Branches {
+				wg.Add(1)
+				go func(bi int) {
+					defer wg.Done()
+					s.own(ev{kind: "branch.begin", a: jid, b: bi}, "branch.begin")
+					outs[bi], errs[bi] = s.exec(ctx, ri, o.Branches[bi], depth, nth)
+					if errs[bi] != nil {
+						s.own(ev{kind: "branch.fail", f1: errs[bi] == reactive.RetrySentinelError}, "branch.fail")
+					}
+					s.own(ev{kind: "branch.end", a: jid}, "branch.end")
+				}(bi)
+			}
+			wg.Wait()
+			failed := false
+			for _, e := range errs {
+				if e != nil {
+					failed = true
+				}
+			}
+			s.own(ev{kind: "join", a: jid, f1: failed}, "join")
+			if failed {
+				return nil, errFail
+			}
+			for _, bo := range outs {
+				out = append(out, bo...)
 			}
 		case "fail", "retry":
 			if atomic.AddInt32(&s.failBud, -1) >= 0 {
@@ -712,4 +765,32 @@ func RunCase(c *Case) (res *Result) {
 		res.Kinds[e.kind]++
 	}
 	return res
+}
+
+// probeKeyLock runs one reactive.Cache call and reports whether the tree under test announces the per-key
+// lock (observation points reactive.cache.locked / reactive.cache.unlock).
+func probeKeyLock() bool {
+	var seen int32
+	verifhook.Set(func(point string, args ...interface{}) {
+		if point == "reactive.cache.locked" {
+			atomic.StoreInt32(&seen, 1)
+		}
+	})
+	defer verifhook.Set(nil)
+	done := make(chan struct{}, 1)
+	rr := reactive.NewRerunner(context.Background(), func(ctx context.Context) (interface{}, error) {
+		reactive.Cache(ctx, 0, func(ctx context.Context) (interface{}, error) { return 0, nil })
+		select {
+		case done <- struct{}{}:
+		default:
+		}
+		return 0, nil
+	}, 0, true)
+	select {
+	case <-done:
+	case <-time.After(2 * time.Second):
+	}
+	rr.Stop()
+	time.Sleep(2 * time.Millisecond)
+	return atomic.LoadInt32(&seen) == 1
 }
